@@ -16,12 +16,14 @@ use vcore::rng::Rng;
 use vcore::trace::{build_trace, Namer};
 
 const STEP_BOUND: u64 = 2_000_000;
-const CAUSES: [&str; 5] = ["io", "peerio", "shutdown", "broker", "sdc"];
+const CAUSES: [&str; 6] = ["io", "sendio", "peerio", "shutdown", "broker", "sdc"];
 
 struct Outcome {
     lines: Vec<serde_json::Value>,
     items: Vec<vcore::trace::Item>,
     victim_ops: u64,
+    /// transport operations of the victim including its final, clean shutdown
+    total_ops: u64,
     triggered: bool,
     flagged: bool,
 }
@@ -35,18 +37,30 @@ fn one(program_seed: u64, schedule_seed: u64, cause: &str, k: u64) -> Outcome {
     let victim = 0usize;
     for i in 0..nclients {
         let fifo = *prng.pick(&fifos);
-        let fail = if i == victim && cause == "io" && k > 0 { Some(k) } else { None };
+        let fail = if i == victim && (cause == "io" || cause == "sendio") && k > 0 { Some(k) } else { None };
+        // "sendio": only the victim's sending direction breaks (half-open connection)
+        bus.half_open_next = i == victim && cause == "sendio";
         let peer_fail = if i == victim && cause == "peerio" && k > 0 { Some(k) } else { None };
         bus.add_client2(&mut srng, fifo, fail, peer_fail);
-    }
-    if bus.clients.len() < nclients {
-        // the fault hit the handshake: nothing else to do, the connect error is the outcome
-        let (lines, items) = bus.finish(false);
-        return Outcome { lines, items, victim_ops: 0, triggered: true, flagged: false };
     }
     if cause != "none" {
         // the observer must know from the start that this run has an injected termination cause
         bus.log.push(json!({"t": "cause", "cl": victim, "cause": cause, "k": k}));
+    }
+    if bus.clients.len() < nclients {
+        // the fault hit the handshake: the connect error is the outcome; the clients that did connect
+        // are shut down cleanly
+        // (the victim is not among bus.clients: the indices of the run records are those of the others)
+        bus.log.push(json!({"t": "fault", "cl": -1, "cause": cause, "k": k}));
+        for i in 0..bus.clients.len() {
+            if let Some(h) = bus.clients[i].handle.take() {
+                h.shutdown();
+            }
+        }
+        bus.spawn_shutdown_idle();
+        let stuck = bus.run(&mut srng, STEP_BOUND) == RunOutcome::StepBound;
+        let (lines, items) = bus.finish(stuck);
+        return Outcome { lines, items, victim_ops: 0, total_ops: 0, triggered: true, flagged: stuck };
     }
     let tokens = Rc::new(Cell::new(0u32));
     let (_n, slots) = bus_driver::program::spawn_program(&mut bus, &mut prng, "calls,events,channels,chaos", &tokens);
@@ -60,7 +74,7 @@ fn one(program_seed: u64, schedule_seed: u64, cause: &str, k: u64) -> Outcome {
     let mut stuck = false;
     let mut steps = 0u64;
     loop {
-        if !triggered && cause != "io" && cause != "peerio" && k > 0 && ops(&bus) >= k {
+        if !triggered && cause != "io" && cause != "sendio" && cause != "peerio" && k > 0 && ops(&bus) >= k {
             triggered = true;
             match cause {
                 "shutdown" => {
@@ -88,8 +102,8 @@ fn one(program_seed: u64, schedule_seed: u64, cause: &str, k: u64) -> Outcome {
             break;
         }
     }
-    if cause == "io" || cause == "peerio" {
-        let flabel = if cause == "io" { label.clone() } else { format!("b{victim}") };
+    if cause == "io" || cause == "sendio" || cause == "peerio" {
+        let flabel = if cause != "peerio" { label.clone() } else { format!("b{victim}") };
         let injected = bus.taps.borrow().events.iter().any(|(_, l, e)| l == &flabel && matches!(e, TapEvent::Failed(_, vcore::link::TErr::Injected)));
         if injected {
             triggered = true;
@@ -117,9 +131,19 @@ fn one(program_seed: u64, schedule_seed: u64, cause: &str, k: u64) -> Outcome {
     if bus.run(&mut srng, STEP_BOUND) == RunOutcome::StepBound {
         stuck = true;
     }
+    if (cause == "io" || cause == "sendio" || cause == "peerio") && !triggered {
+        // the fault point lies in the victim's final shutdown
+        let flabel = if cause != "peerio" { label.clone() } else { format!("b{victim}") };
+        let injected = bus.taps.borrow().events.iter().any(|(_, l, e)| l == &flabel && matches!(e, TapEvent::Failed(_, vcore::link::TErr::Injected)));
+        if injected {
+            triggered = true;
+            bus.log.push(json!({"t": "fault", "cl": victim, "cause": cause, "k": k}));
+        }
+    }
+    let total_ops = ops(&bus);
     let flagged = stuck || unfinished || !bus.exec.panicked().is_empty();
     let (lines, items) = bus.finish(stuck);
-    Outcome { lines, items, victim_ops, triggered, flagged }
+    Outcome { lines, items, victim_ops, total_ops, triggered, flagged }
 }
 
 fn main() {
@@ -155,6 +179,7 @@ fn main() {
         let schedule_seed = program_seed ^ 0x5151;
         let dry = one(program_seed, schedule_seed, "none", 0);
         let n = dry.victim_ops;
+        let total = dry.total_ops;
         ops_seen.push(n);
         let emit = |o: Outcome, tag: serde_json::Value, cl: &mut Vec<serde_json::Value>, bl: &mut Vec<serde_json::Value>| {
             cl.push(json!({"t": "reset", "run": tag}));
@@ -169,7 +194,7 @@ fn main() {
         emit(dry, json!({"program": p, "cause": "none", "k": 0}), &mut client_lines, &mut broker_lines);
         runs += 1;
         for cause in CAUSES {
-            let ks: Vec<u64> = if points == 0 || n <= points {
+            let mut ks: Vec<u64> = if points == 0 || n <= points {
                 (1..=n).collect()
             } else {
                 let mut ks: Vec<u64> = (0..points).map(|_| 1 + rng.below(n)).collect();
@@ -177,6 +202,11 @@ fn main() {
                 ks.dedup();
                 ks
             };
+            if cause == "io" || cause == "sendio" || cause == "peerio" {
+                // every transport operation of the victim's own final shutdown is a fault point too
+                let from = if points == 0 { n + 1 } else { (n + 1).max(total.saturating_sub(11)) };
+                ks.extend(from..=total + 1);
+            }
             for k in ks {
                 // the same schedule seed: up to the fault point the run is the dry run
                 let o = one(program_seed, schedule_seed, cause, k);
